@@ -5,16 +5,29 @@
     for every finite grammar G with positive weights there is a number of `next` steps after which
     the machine has stopped and its output is a permutation of the language of G.
 
-  Proved here, for all inputs:
-    * the heapq port keeps the multiset on push and pop, and pop fails exactly on the empty heap
-      (so a program leaves a heap only by being popped, and enters it only by a push);
+  Proved here, for all inputs (heap search and bucket search on deterministic grammars, model
+  PS/Model/Enum/HeapSearch.lean; proofs by rule induction on the big-step relation `HS.Big` of
+  the machine, PS/Proofs/Enum/HSBig.lean):
+    * the heapq port keeps the multiset on push and pop, and pop fails exactly on the empty heap;
+    * SOUNDNESS (item 4), context-free grammars: the state invariant `HS.SInv` (everything stored in
+      `hash_table_program[S]`, `heaps[S]`, `succ[S]` is derivable from `S`; the stored priority is the
+      priority function `prioSpec` applied to the program — for heap search its probability)
+      holds initially, is kept by `query` and by `next`, and whatever is yielded is a member of the
+      grammar: C02_HS_inv_init, C02_HS_query_sound, C02_HS_sound_step, C02_HS_sound,
+      C02_HS_stored_priority, C02_HS_compute_priority;
+    * NO DUPLICATES (item 5), any tree-traversing grammar, without filter: `HS.NInv` (heap programs
+      pairwise distinct, popped programs never come back, `succ[S]` injective and only growing):
+      C02_HS_query_nodup, C02_HS_nodup_step, C02_HS_nodup;
   and, on concrete witnesses evaluated by the kernel on the models:
     * finding_C02_F2 — the unambiguous heap search as it is yields 10 of the 14 programs of a
       three-start grammar, and (C02_HS_fix_F2_witness) all 14 after the proposed fix;
-    * finding_C02_F3 — heap search on a state-threading TTCFG never yields a member.
-  Completeness, termination, soundness and absence of duplicates of the whole machine are NOT
-  proved; they are checked on every generated case against the independent language oracle and by
-  exact correspondence of the model with the implementation.
+    * finding_C02_F3 — heap search on a state-threading TTCFG never yields a member;
+    * finding_C02_HS_reentrant — on a recursive grammar (`CFG.infinite`) heap search stops after 5
+      programs and never yields a member (re-entrant `query`).
+  NOT proved: completeness and termination (DESIGN B.2 induction on the rank), no-duplicates with a
+  filter, and everything about the unambiguous-grammar machine (UHeapSearch); they are checked on
+  every generated case against the independent language oracle and by exact correspondence of the
+  model with the implementation.
 -/
 import PS.Model.Enum.HeapSearch
 import PS.Model.Enum.UHeapSearch
